@@ -301,6 +301,7 @@ func (cl *cluster) answer(id int32, r *sarama.VerifRequest) (body interface{}, f
 		rec.Kind = "DeleteRecords"
 		resp := &sarama.DeleteRecordsResponse{Topics: map[string]*sarama.DeleteRecordsResponseTopic{}}
 		f := cl.cs.Fault
+		hit := false
 		for t, tp := range b.Topics {
 			rt := &sarama.DeleteRecordsResponseTopic{Partitions: map[int32]*sarama.DeleteRecordsResponsePartition{}}
 			for _, p := range sortedInt32(tp.PartitionOffsets) {
@@ -311,6 +312,7 @@ func (cl *cluster) answer(id int32, r *sarama.VerifRequest) (body interface{}, f
 				}
 				if f.Kind == "item" && int32(f.Item) == p && t == topicName {
 					e = sarama.KError(f.Code)
+					hit = true
 				}
 				rt.Partitions[p] = &sarama.DeleteRecordsResponsePartition{LowWatermark: tp.PartitionOffsets[p], Err: e}
 			}
@@ -319,7 +321,7 @@ func (cl *cluster) answer(id int32, r *sarama.VerifRequest) (body interface{}, f
 			}
 		}
 		sort.Strings(rec.Items)
-		rec.Answer = cl.faultAt(id)
+		rec.Answer = cl.faultAt(id, hit)
 		if f.Kind == "drop" && f.Broker == id {
 			return nil, nil, true
 		}
@@ -329,6 +331,7 @@ func (cl *cluster) answer(id int32, r *sarama.VerifRequest) (body interface{}, f
 		rec.Items = append(rec.Items, "group="+b.ConsumerGroup)
 		resp := &sarama.OffsetFetchResponse{Version: b.Version}
 		f := cl.cs.Fault
+		hit := f.Kind == "top"
 		tps := sarama.VerifOffsetFetchPartitions(b)
 		i := 0
 		var ts []string
@@ -344,6 +347,7 @@ func (cl *cluster) answer(id int32, r *sarama.VerifRequest) (body interface{}, f
 				e := sarama.ErrNoError
 				if f.Kind == "item" && f.Item == i {
 					e = sarama.KError(f.Code)
+					hit = true
 				}
 				resp.AddBlock(t, p, &sarama.OffsetFetchResponseBlock{Offset: 100 + int64(p), Err: e})
 				i++
@@ -355,7 +359,7 @@ func (cl *cluster) answer(id int32, r *sarama.VerifRequest) (body interface{}, f
 		if f.Kind == "top" {
 			resp.Err = sarama.KError(f.Code)
 		}
-		rec.Answer = cl.faultAt(id)
+		rec.Answer = cl.faultAt(id, hit)
 		if f.Kind == "drop" && f.Broker == id {
 			return nil, nil, true
 		}
@@ -364,6 +368,7 @@ func (cl *cluster) answer(id int32, r *sarama.VerifRequest) (body interface{}, f
 		rec.Kind = "DescribeGroups"
 		resp := &sarama.DescribeGroupsResponse{}
 		f := cl.cs.Fault
+		hit := false
 		for _, g := range b.Groups {
 			rec.Items = append(rec.Items, g)
 			d := &sarama.GroupDescription{GroupId: g, State: "Stable", ProtocolType: "consumer", Protocol: "range"}
@@ -373,11 +378,12 @@ func (cl *cluster) answer(id int32, r *sarama.VerifRequest) (body interface{}, f
 			if f.Kind == "item" && groupName(f.Item) == g {
 				d.Err = sarama.KError(f.Code)
 				d.State = ""
+				hit = true
 			}
 			resp.Groups = append(resp.Groups, d)
 		}
 		sort.Strings(rec.Items)
-		rec.Answer = cl.faultAt(id)
+		rec.Answer = cl.faultAt(id, hit)
 		if f.Kind == "drop" && f.Broker == id {
 			return nil, nil, true
 		}
@@ -386,6 +392,7 @@ func (cl *cluster) answer(id int32, r *sarama.VerifRequest) (body interface{}, f
 		rec.Kind = "DeleteGroups"
 		resp := &sarama.DeleteGroupsResponse{GroupErrorCodes: map[string]sarama.KError{}}
 		f := cl.cs.Fault
+		hit := false
 		for _, g := range b.Groups {
 			rec.Items = append(rec.Items, g)
 			e := sarama.ErrNoError
@@ -394,13 +401,14 @@ func (cl *cluster) answer(id int32, r *sarama.VerifRequest) (body interface{}, f
 			}
 			if f.Kind == "item" && groupName(f.Item) == g {
 				e = sarama.KError(f.Code)
+				hit = true
 			}
 			if !(f.Kind == "inc" && f.Broker == id) {
 				resp.GroupErrorCodes[g] = e
 			}
 		}
 		sort.Strings(rec.Items)
-		rec.Answer = cl.faultAt(id)
+		rec.Answer = cl.faultAt(id, hit)
 		if f.Kind == "drop" && f.Broker == id {
 			return nil, nil, true
 		}
@@ -410,11 +418,13 @@ func (cl *cluster) answer(id int32, r *sarama.VerifRequest) (body interface{}, f
 		rec.Items = []string{fmt.Sprintf("broker=%d", id)}
 		f := cl.cs.Fault
 		d := sarama.DescribeLogDirsResponseDirMetadata{Path: fmt.Sprintf("/kafka/b%d", id)}
+		hit := false
 		if f.Kind == "item" && f.Broker == id {
 			d.ErrorCode = sarama.KError(f.Code)
+			hit = true
 		}
 		resp := &sarama.DescribeLogDirsResponse{Version: b.Version, LogDirs: []sarama.DescribeLogDirsResponseDirMetadata{d}}
-		rec.Answer = cl.faultAt(id)
+		rec.Answer = cl.faultAt(id, hit)
 		if f.Kind == "drop" && f.Broker == id {
 			return nil, nil, true
 		}
@@ -425,13 +435,17 @@ func (cl *cluster) answer(id int32, r *sarama.VerifRequest) (body interface{}, f
 	return nil, nil, true
 }
 
-func (cl *cluster) faultAt(id int32) string {
+// faultAt names what the answer to this request contained (hit: the faulty item was in it).
+func (cl *cluster) faultAt(id int32, hit bool) string {
 	f := cl.cs.Fault
 	switch f.Kind {
 	case "", "none":
 		return "ok"
 	case "item", "top":
-		return fmt.Sprintf("%s(%d)", f.Kind, f.Code)
+		if hit {
+			return fmt.Sprintf("%s(%d)", f.Kind, f.Code)
+		}
+		return "ok"
 	}
 	if f.Broker == id {
 		return f.Kind
